@@ -631,6 +631,17 @@ def boolean_valued(e, fn, bitfields, _depth=0):
         return boolean_valued(e["a"], fn, bitfields, _depth) and boolean_valued(e["b"], fn, bitfields, _depth)
     if k == "call" and e.get("callee") == "__builtin_expect":
         return boolean_valued(e["args"][0], fn, bitfields, _depth)
+    if k == "ref" and e.get("decl") == "param" and _depth < 4 and fn.d.get("static"):
+        # the parameter of a static helper (`pp_socket_mark_connected (sock, val == 0)`): 0/1 when every caller in the unit passes a
+        # 0/1 value and nothing in the helper assigns it
+        base = getattr(fn, "inlined_from", None) or fn
+        names = [p_["name"] for p_ in base.d.get("params", [])]
+        if e["name"] in names:
+            idx = names.index(e["name"])
+            assigned = any(n["k"] == "asg" and root_var(n["l"]) == e["name"] and strip_casts(n["l"])["k"] == "ref" for b, i, n in base.nodes(elsewhere=True))
+            sites = [(f2, c) for f2 in base.unit.functions.values() for (b, i, c) in f2.calls() if c.get("callee") == base.name and len(c.get("args", ())) > idx]
+            return bool(sites) and not assigned and all(boolean_valued(c["args"][idx], f2, bitfields, _depth + 1) for (f2, c) in sites)
+        return False
     if k == "ref" and e.get("decl") == "local" and _depth < 4:
         # a local every definition of which is 0/1 (`is_connected = TRUE; ... else is_connected = FALSE;`)
         defs = []
@@ -754,6 +765,14 @@ def run(prog, rep):
 RENAME_LOCALS = ['src/psocket.c']
 
 SELFTEST = [
+    dict(id="check-connect-result-through-helper-neutral", expect=None, edits=[
+        dict(file="src/psocket.c", old="\tsocket->connected = (val == 0);\n\n\treturn (val == 0);", new="\treturn pp_socket_mark_connected (socket, val == 0);"),
+        dict(file="src/psocket.c", old="P_LIB_API pboolean\np_socket_check_connect_result",
+             new="static pboolean\npp_socket_mark_connected (PSocket *sock, pboolean established)\n{\n\tsock->connected = established;\n\treturn established;\n}\n\nP_LIB_API pboolean\np_socket_check_connect_result")]),
+    dict(id="set-blocking-helper-stores-raw-flag", expect="C10.5", edits=[
+        dict(file="src/psocket.c", old="\tsocket->blocking = !! blocking;", new="\tpp_socket_store_blocking (socket, blocking);"),
+        dict(file="src/psocket.c", old="P_LIB_API void\np_socket_set_blocking",
+             new="static void\npp_socket_store_blocking (PSocket *sock, pboolean flag)\n{\n\tsock->blocking = flag;\n}\n\nP_LIB_API void\np_socket_set_blocking")]),
     dict(id="check-connect-result-keeps-connected", file="src/psocket.c", expect="C10.5",
          old="\t\t\t\t     \"Error in socket layer\");\n\n\tsocket->connected = (val == 0);\n\n\treturn (val == 0);",
          new="\t\t\t\t     \"Error in socket layer\");\n\n\tif (val != 0)\n\t\treturn FALSE;\n\n\tsocket->connected = TRUE;\n\n\treturn TRUE;"),
